@@ -29,6 +29,10 @@ type World struct {
 	H   *handlers.HTTP
 	Ext *handlers.External
 	noSocket bool
+	// Opts: the configuration the HTTP listener was built with (nil = the historical default);
+	// Base: the request shape that configuration demands, applied by Post / PostFrom / PostCL (http.go)
+	Opts *HTTPOpts
+	Base *HTTPReq
 }
 
 func init() { gin.SetMode(gin.ReleaseMode) }
@@ -36,6 +40,10 @@ func init() { gin.SetMode(gin.ReleaseMode) }
 // ScratchBase prefers a memory-backed directory (sqlite fsyncs dominate the per-case
 // cost on disk); "" means the default temp dir.
 func ScratchBase() string {
+	// a harness that runs a case in a child process of its own gives the child a directory it removes afterwards
+	if d := os.Getenv("AGX_SCRATCH"); d != "" {
+		return d
+	}
 	if st, err := os.Stat("/dev/shm"); err == nil && st.IsDir() {
 		return "/dev/shm"
 	}
@@ -55,6 +63,10 @@ func NewWorld(prof *profile.Profile) (*World, error) { return newWorld(prof, fal
 func NewWorldNoSocket(prof *profile.Profile) (*World, error) { return newWorld(prof, true) }
 
 func newWorld(prof *profile.Profile, noSocket bool) (*World, error) {
+	return newWorldOpts(prof, noSocket, nil)
+}
+
+func newWorldOpts(prof *profile.Profile, noSocket bool, o *HTTPOpts) (*World, error) {
 	dir, err := os.MkdirTemp(ScratchBase(), "agx-")
 	if err != nil {
 		return nil, err
@@ -72,6 +84,21 @@ func newWorld(prof *profile.Profile, noSocket bool) (*World, error) {
 	h.Teamserver = ts
 	if noSocket {
 		h.Config.PortBind = "-1"
+	}
+	if o != nil {
+		// what ListenerStart / the profile loader copy into the handler's configuration (cmd/server/teamserver.go, dispatch.go)
+		if ts.Profile != nil && ts.Profile.Config.Demon != nil {
+			ts.Profile.Config.Demon.TrustXForwardedFor = o.BehindRedir
+		}
+		h.Config.BehindRedir = o.BehindRedir
+		h.Config.Uris = o.Uris
+		h.Config.Headers = o.Headers
+		h.Config.UserAgent = o.UserAgent
+		h.Config.HostHeader = o.HostHeader
+		h.Config.Methode = o.Methode
+		h.Config.Response.Headers = o.RespHeaders
+		w.Opts = o
+		w.Base = o.Conforming()
 	}
 	h.Start()
 	ts.Listeners = append(ts.Listeners, &server.Listener{Name: "http", Type: handlers.LISTENER_HTTP, Config: h})
@@ -127,8 +154,7 @@ func (w *World) Post(body []byte) (int, []byte) {
 }
 
 func (w *World) PostFrom(body []byte, remote string) (int, []byte) {
-	req := httptest.NewRequest(http.MethodPost, "/", bytes.NewReader(body))
-	req.RemoteAddr = remote
+	req := w.newPost(body, remote)
 	rr := httptest.NewRecorder()
 	w.H.GinEngine.ServeHTTP(rr, req)
 	return rr.Code, rr.Body.Bytes()
@@ -140,8 +166,7 @@ func (w *World) PostExt(body []byte) (int, []byte) { return w.PostExtCL(body, ni
 // PostCL / PostExtCL are Post / PostExt with the request's announced Content-Length set to *cl
 // (what a peer writing its own HTTP framing can claim), whatever the body really holds.
 func (w *World) PostCL(body []byte, cl *int64) (int, []byte) {
-	req := httptest.NewRequest(http.MethodPost, "/", bytes.NewReader(body))
-	req.RemoteAddr = "10.1.2.3:40000"
+	req := w.newPost(body, "10.1.2.3:40000")
 	if cl != nil {
 		req.ContentLength = *cl
 	}
